@@ -156,3 +156,57 @@ package gorp
 //@   loop 0 invariant forall k K :: __seen(k) && d.state[k].deleted ==> !__in(l.reverse, k)
 //@   loop 0 invariant forall k K :: __seen(k) && !d.state[k].deleted ==> __in(l.reverse, k) && l.reverse[k] == d.state[k].value
 //@   loop 0 invariant forall k K :: !__seen(k) ==> __in(l.reverse, k) == old(__in(l.reverse, k)) && l.reverse[k] == old(l.reverse[k])
+
+//@ # ---------------------------------------------------------------- sorted (range) index (C17)
+//@ # entries are kept in ascending value order; lowerBound/upperBound are binary searches
+//@ # (sort.Search) whose results delimit exactly the entries below / equal to / above a value;
+//@ # put keeps the order; an ordered walk after a cursor returns exactly the keys whose value lies
+//@ # strictly past the cursor, in index order - which is what a full scan with that filter returns.
+//@ import cmp "cmp"
+//@ spec func sortedBy[K Key, V cmp.Ordered](e []sortedEntry[K, V]) bool = forall i int, j int :: 0 <= i && i < j && j < len(e) ==> e[i].value <= e[j].value
+//@ func (s *SortedIndex[K, E, V]) lowerBound(value V) (r int)
+//@   tparams K Key, E Entry[K], V cmp.Ordered
+//@   requires sortedBy(s.entries)
+//@   ensures  0 <= r && r <= len(s.entries)
+//@   ensures  forall i int :: 0 <= i && i < r ==> s.entries[i].value < value
+//@   ensures  forall i int :: r <= i && i < len(s.entries) ==> s.entries[i].value >= value
+//@   modifies nothing
+//@ func (s *SortedIndex[K, E, V]) upperBound(value V) (r int)
+//@   tparams K Key, E Entry[K], V cmp.Ordered
+//@   requires sortedBy(s.entries)
+//@   ensures  0 <= r && r <= len(s.entries)
+//@   ensures  forall i int :: 0 <= i && i < r ==> s.entries[i].value <= value
+//@   ensures  forall i int :: r <= i && i < len(s.entries) ==> s.entries[i].value > value
+//@   modifies nothing
+//@ # put inserts after the last entry with an equal value: order kept, every other entry kept in order
+//@ func (s *SortedIndex[K, E, V]) put(key K, value V)
+//@   tparams K Key, E Entry[K], V cmp.Ordered
+//@   requires sortedBy(s.entries)
+//@   ensures  sortedBy(s.entries) && len(s.entries) == old(len(s.entries)) + 1
+//@   ensures  exists p int :: 0 <= p && p < len(s.entries) && s.entries[p].key == key && s.entries[p].value == value && (forall i int :: 0 <= i && i < p ==> s.entries[i] == old(s.entries[i])) && (forall i int :: p < i && i < len(s.entries) ==> s.entries[i] == old(s.entries[i-1]))
+//@   modifies &s.entries
+//@ # an ascending / descending walk of entries from start, up to limit keys (0 = all)
+//@ func walkSorted[K Key, V cmp.Ordered](entries []sortedEntry[K, V], start int, dir Direction, limit int) (keys []K)
+//@   tparams K Key, V cmp.Ordered
+//@   requires (dir == DirectionAsc ==> 0 <= start && start <= len(entries)) && (dir == DirectionDesc ==> -1 <= start && start < len(entries))
+//@   ensures  limit == 0 && dir == DirectionAsc ==> len(keys) == len(entries) - start && (forall k int :: 0 <= k && k < len(keys) ==> keys[k] == entries[start+k].key)
+//@   ensures  limit == 0 && dir == DirectionDesc ==> len(keys) == start + 1 && (forall k int :: 0 <= k && k < len(keys) ==> keys[k] == entries[start-k].key)
+//@   ensures  limit > 0 && dir == DirectionAsc ==> len(keys) == min(limit, len(entries) - start) && (forall k int :: 0 <= k && k < len(keys) ==> keys[k] == entries[start+k].key)
+//@   ensures  limit > 0 && dir == DirectionDesc ==> len(keys) == min(limit, start + 1) && (forall k int :: 0 <= k && k < len(keys) ==> keys[k] == entries[start-k].key)
+//@   modifies nothing
+//@   loop 0 invariant start <= i && i <= len(entries) && emitted == i - start && len(keys) == emitted && (limit > 0 ==> emitted <= limit)
+//@   loop 0 invariant forall k int :: 0 <= k && k < len(keys) ==> keys[k] == entries[start+k].key
+//@   loop 1 invariant -1 <= i && i <= start && emitted == start - i && len(keys) == emitted && (limit > 0 ==> emitted <= limit)
+//@   loop 1 invariant forall k int :: 0 <= k && k < len(keys) ==> keys[k] == entries[start-k].key
+//@ ignore func (s *baseIndex[K, E]) populateErrWrapped() error
+//@ # ordered walk, resumed after a cursor: exactly the entries strictly past the cursor, in order
+//@ func (q SortedQuery[K, E, V]) walkOrder(limit int) (keys []K)
+//@   tparams K Key, E Entry[K], V cmp.Ordered
+//@   requires q.sorted != nil && sortedBy(q.sorted.entries) && limit >= 0 && (q.dir == DirectionAsc || q.dir == DirectionDesc)
+//@   # ascending after cursor c, no limit: the keys of the entries with value > c, in index order
+//@   ensures  q.dir == DirectionAsc && q.hasCursor && limit == 0 && keys != nil ==> (exists b int :: 0 <= b && b <= len(q.sorted.entries) && len(keys) == len(q.sorted.entries) - b && (forall i int :: 0 <= i && i < b ==> q.sorted.entries[i].value <= q.cursor) && (forall i int :: b <= i && i < len(q.sorted.entries) ==> q.sorted.entries[i].value > q.cursor && keys[i-b] == q.sorted.entries[i].key))
+//@   # descending after cursor c, no limit: the keys of the entries with value < c, from the largest down
+//@   ensures  q.dir == DirectionDesc && q.hasCursor && limit == 0 && keys != nil ==> (exists b int :: 0 <= b && b <= len(q.sorted.entries) && len(keys) == b && (forall i int :: 0 <= i && i < b ==> q.sorted.entries[i].value < q.cursor && keys[b-1-i] == q.sorted.entries[i].key) && (forall i int :: b <= i && i < len(q.sorted.entries) ==> q.sorted.entries[i].value >= q.cursor))
+//@   # with a limit: a prefix of that
+//@   ensures  limit > 0 ==> len(keys) <= limit
+//@   modifies nothing
